@@ -1006,6 +1006,18 @@ func (e *containerExec) one(s *CStep) {
 		o.Eval("C08")
 		o.Sig("C08", "container-keys", s.Format, len(rd) > 0)
 	}
+	// after a read of damaged bytes (refused or not), the container as it was written still reads
+	// back exactly: a failed read leaves nothing behind that the next one trips over
+	if fault != "" && len(e.sealed) > 0 {
+		var crd container.Reader
+		var cerr error
+		if guard(o, "container.From:"+s.Format+" (pristine, after a damaged read)", func() { crd, cerr = readContainerVariant(s.Format, s.RStream, s.Chunks, append([]byte{}, raw...)) }) {
+			return
+		}
+		cs := *s
+		cs.Fault = "after:" + s.Fault
+		e.judge(&cs, crd, cerr, e.expect(s.Format, raw, false), variant+", pristine bytes after a damaged read")
+	}
 	// two stream reads overlapping in time, as two connections served at once: while this
 	// container is being read (its source has delivered part of it and is asked for more),
 	// another, one-token container of the same format is read from start to end; then the first
